@@ -351,8 +351,35 @@ _PSM = "wow_message_parser::parser::types::parsed::parsed_struct_member::ParsedS
 _ADT_FIELDS = {}
 
 
+_ADT_BY_NAME = {}
+
+
+def _relocate(path):
+    """witness values name their types by module path; if a type has moved, find it again by its name (when that is unambiguous)"""
+    if not _ADT_BY_NAME:
+        for a in facts("wow_message_parser").all("adt"):
+            _ADT_BY_NAME.setdefault(a["path"].split("::")[-1], []).append(a["path"])
+    canon = path.startswith("wow_message_parser::")
+    segs = path.split("::")
+    for k in (1, 2):
+        if len(segs) > k:
+            ty = segs[-k]
+            hits = _ADT_BY_NAME.get(ty, [])
+            full = "::".join(segs[:len(segs) - k + 1])
+            if len(hits) == 1:
+                base = hits[0]
+                if canon:
+                    base = "wow_message_parser::" + base[len("crate::"):]
+                if base != full:
+                    return "::".join([base] + segs[len(segs) - k + 1:])
+                return path
+    return path
+
+
 def _fill(v):
     """add the fields the witness does not care about (None) so that a new field in the repository does not break the instance"""
+    if isinstance(v, tuple) and v and v[0] in ("struct", "variant") and isinstance(v[1], str):
+        v = (v[0], _relocate(v[1])) + tuple(v[2:])
     if isinstance(v, tuple) and v and v[0] == "struct":
         if not _ADT_FIELDS:
             for a in facts("wow_message_parser").all("adt"):
@@ -442,6 +469,35 @@ def witness_table():
         T.append((want, ck, [_cont([x, _ifm([a], eq=eq)]), []], ov, f"`if (x {'&' if eq == 'BitwiseAnd' else '==' if eq == 'Equals' else '!='} A)` on a {kind.lower()} member"))
         T.append((want, ck, [_cont([x, _opt([_ifm([a], eq=eq)])]), []], ov, f"the same inside an optional block ({kind.lower()}, {eq})"))
         T.append((want, ck, [_cont([x, _dfn("y", ident), _ifm([a], eq="Equals" if kind == "Enum" else "BitwiseAnd", els=[_ifm([b], eq=eq, var="y")])]), []], ov, f"the same nested in an else arm ({kind.lower()}, {eq})"))
+    # position of the `= self.size` member: only after constant-sized plain members
+    sfb = "crate::parser::types::objects::conversion::size_of_fields_before"
+    ov_sz = {"::sizes_parsed": lambda args: ("sz", args[0]), "::is_constant": lambda args: ("Some", args[0][1]) if args[0][1] is not None else "None"}
+    manual = ("Some", ("struct", "crate::parser::types::ParsedContainerValue", {"identifier": "self.size"}))
+
+    def mdef(name, ty, value="None"):
+        d = _dfn(name, ty)
+        d[2][0][2]["value"] = value
+        return d
+    for members, want, desc in (
+        ([mdef("a", 1), mdef("size", 2, manual), mdef("s", None)], None, "self.size member after a constant-sized member"),
+        ([mdef("size", 2, manual), mdef("s", None)], None, "self.size member first"),
+        ([mdef("s", None), mdef("size", 2, manual)], "invalid_self_size_position", "self.size member after a variable-sized member"),
+        ([_ifm([mdef("b", 1)]), mdef("size", 2, manual)], "invalid_self_size_position", "self.size member after an if statement"),
+        ([_opt([mdef("b", 1)]), mdef("size", 2, manual)], "invalid_self_size_position", "self.size member after an optional block"),
+        ([mdef("a", 1), mdef("b", 4)], None, "no self.size member at all"),
+    ):
+        T.append((want, sfb, ["C", _cont(members), [], [], members, None], ov_sz, desc))
+    # all conditions of one if statement test the same variable
+    eqn = "crate::parser::types::if_statement::Equation::new"
+    CND = "crate::parser::types::parsed::parsed_if_statement::Condition"
+    OP = "wow_message_parser::parser::types::if_statement::Operator::"
+
+    def cond(var, val, op="Equals"):
+        return ("struct", CND, {"value": var, "operator": ("variant", OP + op), "equals_value": val})
+    T += [(None, eqn, [[cond("a", "X"), cond("a", "Y")], "C", None], {}, "`if (a == X || a == Y)`"),
+          ("non_matching_if_statement_variables", eqn, [[cond("a", "X"), cond("b", "Y")], "C", None], {}, "`if (a == X || b == Y)` (two variables in one condition)"),
+          ("non_matching_if_statement_variables", eqn, [[cond("a", "X", "BitwiseAnd"), cond("a", "Y", "BitwiseAnd"), cond("c", "Z", "BitwiseAnd")], "C", None], {}, "`if (a & X || a & Y || c & Z)`"),
+          (None, eqn, [[cond("a", "X", "NotEquals")], "C", None], {}, "`if (a != X)`")]
     it = _PC + "parsed_tags::ParsedTags::into_tags"
     ov = {"::ObjectTags::from_parsed": lambda args: ("tags-built",), "::into_bool": lambda args: False, "::into_bool_with_default": lambda args: False}
     T += [("object_has_both_versions", it, [_tags(["w1"], ["l1"]), "T", None, False], ov, "object with world and login versions"),
@@ -487,8 +543,8 @@ def check_witnesses(ctx, FB):
             else:
                 msg = f"the ill-formed instance `{desc}` is reported through {got} instead of {want}: the generator stops with another rule's exit status"
             ctx.violate("rule.witness", f"{fnp}|{desc}", f"{fnp.split('::')[-2]}::{fnp.split('::')[-1]}: {msg}", fn["file"], fn["line"])
-    ctx.rule("rule.witness", n, floor=30, note="validation functions interpreted on minimal ill-formed and well-formed instances (duplicate enumerator values in different spellings, duplicate member names "
-             "in every nesting position, enum/flag if-operators, version tags): the rule's own error function is reached exactly for the ill-formed ones")
+    ctx.rule("rule.witness", n, floor=40, note="validation functions interpreted on minimal ill-formed and well-formed instances (duplicate enumerator values in different spellings, duplicate member names "
+             "in every nesting position, enum/flag if-operators, position of the self.size member, one variable per if condition, version tags): the rule's own error function is reached exactly for the ill-formed ones")
 
 
 def run(ctx):
